@@ -512,3 +512,69 @@ def feature_programs():
     out.append(("feat_i64", "@group(0) @binding(0) var<storage, read_write> o: array<i64, 2>;\n@compute @workgroup_size(1) fn main() { o[0] = o[1] + 1li; }\n"))
     out.append(("feat_f64", "@group(0) @binding(0) var<storage, read_write> o: array<f64, 2>;\n@compute @workgroup_size(1) fn main() { o[0] = o[1] + 1.0lf; }\n"))
     return out
+
+
+# ---------------------------------------------------------------------------------------------------------------
+# Entry-point inputs read at SEVERAL control-flow positions (round 3).  An input that needs a fix-up where it is read
+# (an f16 varying declared as f32 without the 16-bit I/O capability, sample_mask declared as an array, point size,
+# flipped position ...) must be re-materialised, or materialised where it dominates every use: a value produced inside
+# one branch and re-used after the construct breaks "every ID is defined before (dominating) its uses".
+IO_INPUTS = {
+    "fragment": [
+        ("loc_f32", "", "@location(0) v: f32", "v"),
+        ("loc_flat_u32", "", "@location(0) @interpolate(flat) v: u32", "f32(v)"),
+        ("loc_vec3_f32", "", "@location(0) v: vec3<f32>", "v.y"),
+        ("loc_f16", "enable f16;\n", "@location(0) v: f16", "f32(v)"),
+        ("loc_vec2_f16", "enable f16;\n", "@location(0) v: vec2<f16>", "f32(dot(v, v))"),
+        ("loc_vec4_f16", "enable f16;\n", "@location(0) v: vec4<f16>", "f32(dot(v, v))"),
+        ("sample_mask", "", "@builtin(sample_mask) v: u32", "f32(v)"),
+        ("sample_index", "", "@builtin(sample_index) v: u32", "f32(v)"),
+        ("front_facing", "", "@builtin(front_facing) v: bool", "select(1.0, 2.0, v)"),
+        ("struct_f16", "enable f16;\nstruct In { @location(0) h: vec2<f16>, @location(1) g: f32 }\n", "v: In", "(f32(dot(v.h, v.h)) + v.g)"),
+        ("struct_mask", "struct In { @builtin(sample_mask) m: u32, @location(1) g: f32 }\n", "v: In", "(f32(v.m) + v.g)"),
+    ],
+    "vertex": [
+        ("vertex_index", "", "@builtin(vertex_index) v: u32", "f32(v)"),
+        ("instance_index", "", "@builtin(instance_index) v: u32", "f32(v)"),
+        ("loc_f16", "enable f16;\n", "@location(0) v: f16", "f32(v)"),
+        ("loc_vec2_f16", "enable f16;\n", "@location(0) v: vec2<f16>", "f32(dot(v, v))"),
+        ("loc_i32", "", "@location(0) v: i32", "f32(v)"),
+    ],
+    "compute": [
+        ("local_invocation_id", "", "@builtin(local_invocation_id) v: vec3<u32>", "f32(v.x)"),
+        ("local_invocation_index", "", "@builtin(local_invocation_index) v: u32", "f32(v)"),
+        ("num_workgroups", "", "@builtin(num_workgroups) v: vec3<u32>", "f32(v.z)"),
+    ],
+}
+IO_BODIES = {
+    "if_then_after": "if (c > 0.5) { acc += USE; }\n  acc += USE;",
+    "else_then_after": "if (c > 0.5) { acc += 1.0; } else { acc += USE; }\n  acc *= USE;",
+    "sibling_arms": "if (c > 0.5) { acc += USE; } else { acc -= USE; }",
+    "switch_cases_then_after": "switch (u32(c)) { case 0u: { acc += USE; } case 1u, 2u: { acc -= USE; } default: { } }\n  acc += USE;",
+    "loop_body_then_after": "for (var i = 0; i < 2; i++) { if (c > f32(i)) { acc += USE; } }\n  acc += USE;",
+    "continuing_then_after": "var i = 0; loop { if (i >= 2) { break; } continuing { acc += USE; i++; } }\n  acc += USE;",
+    "nested_if_in_loop_then_sibling": "for (var i = 0; i < 2; i++) { if (c > 0.5) { if (c > 1.5) { acc += USE; } } else { acc -= USE; } }",
+}
+IO_OPTION_SETS = [("io16-off-1.0", {"use_storage_io16": False}), ("io16-on-1.3", {"use_storage_io16": True, "version": 0x103}),
+                  ("io16-off-1.4-debug", {"use_storage_io16": False, "version": 0x104, "debug": True}),
+                  ("io16-off-flipy-pointsize", {"use_storage_io16": False, "adjust_coordinate_space": True, "force_point_size": True})]
+
+
+def io_read_site_programs():
+    """-> [(name, src)]"""
+    out = []
+    for stage, inputs in IO_INPUTS.items():
+        for iname, pre, param, use in inputs:
+            for bname, body in IO_BODIES.items():
+                b = body.replace("USE", use)
+                if stage == "fragment":
+                    src = (pre + "@fragment fn main(@builtin(position) pos: vec4<f32>, %s) -> @location(0) vec4<f32> {\n  let c = pos.x;\n  var acc = 0.0;\n  %s\n  return vec4<f32>(acc);\n}\n"
+                           % (param, b))
+                elif stage == "vertex":
+                    src = (pre + "@group(0) @binding(0) var<uniform> u: vec4<f32>;\n@vertex fn main(%s) -> @builtin(position) vec4<f32> {\n  let c = u.x;\n  var acc = 0.0;\n  %s\n  return vec4<f32>(acc);\n}\n"
+                           % (param, b))
+                else:
+                    src = (pre + "@group(0) @binding(0) var<storage, read_write> o: array<f32, 4>;\n@compute @workgroup_size(2) fn main(%s) {\n  let c = o[1];\n  var acc = 0.0;\n  %s\n  o[0] = acc;\n}\n"
+                           % (param, b))
+                out.append(("io_%s_%s_%s" % (stage, iname, bname), src))
+    return out
